@@ -13,7 +13,9 @@
     `F(x̂ₖ) − F⋆ ≤ 2(‖x₀−x⋆‖² + Mₖ)/(γₖ (k+2)²) ≤` the property's bound.
   * `fista_rate_model` — the same bound for **every callback of the loop model**
     `Fista.run` (`Alpaqa/Model/Fista.lean`, tied to fista.tpp by bit-exact trace replay): all three
-    Lipschitz modes, all stop schedules / budgets, under the oracle contract `Spec`
+    Lipschitz modes, all stop schedules / budgets (the final callback of a solve whose last
+    backtracking loop may have been cut short by a visible stop request is excepted — the loop polls
+    the flag, C19), under the oracle contract `Spec`
     (ψ convex; prox = `ProxContract` in subgradient form) and `QubMax` (`L_max` valid).  The QUB at
     accepted steps is *not* assumed: it is what the loop checks via the generated
     `fista_qubViolated`; its rounding margin `(1+|ψ|)·tol` is carried as the explicit term
@@ -272,20 +274,28 @@ variable {α : Type} [Field α] [LinearOrder α] [IsStrictOrderedRing α] [RealL
 /-- **fista_rate_model**: every iterate reported by `Fista.run` (newest first in
     `callbacks.reverse`) satisfies
     `F(x̂ₖ) − F⋆ ≤ 2(‖x₀ − x⋆‖² + Σ_{j≤k} 2γ_j t_j² margin_j)/(γₖ (k+2)²)`,
-    for all stop schedules, budgets, Lipschitz modes, criteria. -/
+    for all stop schedules (a flag that is never lowered), budgets, Lipschitz modes, criteria —
+    with one exception since the backtracking loop polls the stop flag (C19): the iterate of the
+    *final* callback (the head of `callbacks.reverse`) when a stop request was visible at the final
+    loop-head check (`finalPoll`), which may have cut the last backtracking short.  So: all callbacks
+    but the final one always; the final one too if no request was visible at the final check. -/
 theorem fista_rate_model (S : Spec n P ψ grad h dom) (hp : ParamOK pr) (hQ : QubMax n ψ grad pr.Lmax)
     (T : Target n ψ h dom xs Fs) (hsq : LawfulSqrt α) (hacc : pr.disableAcceleration = false)
-    (stop : ℕ → Bool) (oot : Bool) (x0 y Sig errz0 gV : List α) (nan inf : α) (hx0 : x0.length = n)
+    (stop : ℕ → Bool) (hm : StopMono stop) (oot : Bool) (x0 y Sig errz0 gV : List α) (nan inf : α)
+    (hx0 : x0.length = n)
     (hfuel : (run P pr stop oot x0 y Sig errz0 gV nan inf).fuelOut = false) :
     AllOK pr ψ h Fs (ipN n (toFn x0 - toFn xs) (toFn x0 - toFn xs))
-      (run P pr stop oot x0 y Sig errz0 gV nan inf).callbacks.reverse := by
+      (run P pr stop oot x0 y Sig errz0 gV nan inf).callbacks.reverse.tail ∧
+    (stop (finalPoll pr (run P pr stop oot x0 y Sig errz0 gV nan inf)) = false →
+      AllOK pr ψ h Fs (ipN n (toFn x0 - toFn xs) (toFn x0 - toFn xs))
+        (run P pr stop oot x0 y Sig errz0 gV nan inf).callbacks.reverse) := by
   unfold run at hfuel ⊢
   cases hi : initState P pr x0 gV nan with
   | inl tk => simp [AllOK]
   | inr s =>
     simp only [hi] at hfuel ⊢
     obtain ⟨hinv, hk, hcbs, _, _⟩ := initState_top (xs := xs) (Fs := Fs) S hp x0 gV nan hx0 s hi
-    apply mainLoop_allOK S hp hQ T hsq hacc stop oot x0 y Sig errz0 _ _ s (by omega) (by omega)
+    apply mainLoop_allOK S hp hQ T hsq hacc stop hm oot x0 y Sig errz0 _ _ s (by omega) (by omega)
     · rw [hcbs]; simpa [marginSum] using hinv
     · rw [hcbs]; trivial
     · exact hfuel
@@ -296,12 +306,17 @@ theorem fista_rate_model (S : Spec n P ψ grad h dom) (hp : ParamOK pr) (hQ : Qu
 theorem fista_rate_model_exact (S : Spec n P ψ grad h dom) (hp : ParamOK pr)
     (hQ : QubMax n ψ grad pr.Lmax) (T : Target n ψ h dom xs Fs) (hsq : LawfulSqrt α)
     (hacc : pr.disableAcceleration = false) (hzero : fixedLip pr = true ∨ pr.qubTol = 0)
-    (stop : ℕ → Bool) (oot : Bool) (x0 y Sig errz0 gV : List α) (nan inf : α) (hx0 : x0.length = n)
+    (stop : ℕ → Bool) (hm : StopMono stop) (oot : Bool) (x0 y Sig errz0 gV : List α) (nan inf : α)
+    (hx0 : x0.length = n)
     (hfuel : (run P pr stop oot x0 y Sig errz0 gV nan inf).fuelOut = false) :
-    ∀ cb ∈ (run P pr stop oot x0 y Sig errz0 gV nan inf).callbacks,
+    (∀ cb ∈ (run P pr stop oot x0 y Sig errz0 gV nan inf).callbacks.reverse.tail,
       ψ cb.it.xhat + h cb.it.xhat - Fs
-        ≤ 2 * ipN n (toFn x0 - toFn xs) (toFn x0 - toFn xs) / (cb.it.gamma * ((cb.k : α) + 2) ^ 2) := by
-  have hall := fista_rate_model S hp hQ T hsq hacc stop oot x0 y Sig errz0 gV nan inf hx0 hfuel
+        ≤ 2 * ipN n (toFn x0 - toFn xs) (toFn x0 - toFn xs) / (cb.it.gamma * ((cb.k : α) + 2) ^ 2)) ∧
+    (stop (finalPoll pr (run P pr stop oot x0 y Sig errz0 gV nan inf)) = false →
+      ∀ cb ∈ (run P pr stop oot x0 y Sig errz0 gV nan inf).callbacks,
+        ψ cb.it.xhat + h cb.it.xhat - Fs
+          ≤ 2 * ipN n (toFn x0 - toFn xs) (toFn x0 - toFn xs) / (cb.it.gamma * ((cb.k : α) + 2) ^ 2)) := by
+  have hall := fista_rate_model S hp hQ T hsq hacc stop hm oot x0 y Sig errz0 gV nan inf hx0 hfuel
   have hm0 : ∀ l : List (Callback α), marginSum pr l = 0 := by
     intro l
     induction l with
@@ -323,27 +338,36 @@ theorem fista_rate_model_exact (S : Spec n P ψ grad h dom) (hp : ParamOK pr)
       rcases List.mem_cons.mp hcb with rfl | hmem
       · have := hok.1; rwa [hm0] at this
       · exact ih hok.2 cb hmem
-  intro cb hcb
-  have := hgen _ hall cb (List.mem_reverse.mpr hcb)
-  unfold Rate at this
-  simpa using this
+  refine ⟨fun cb hcb => ?_, fun hns cb hcb => ?_⟩
+  · have := hgen _ hall.1 cb hcb
+    unfold Rate at this
+    simpa using this
+  · have := hgen _ (hall.2 hns) cb (List.mem_reverse.mpr hcb)
+    unfold Rate at this
+    simpa using this
 
 /-- **pg_monotone / pg_rate on the model** (`disable_acceleration = true`): for the callbacks of
     `Fista.run` (newest first), `F(x̂ₖ) − F⋆ ≤ (‖x₀−x⋆‖² + Σ_{j≤k} 2γ_j(j+1)m_j)/(2γₖ(k+1))` and
-    `F(x̂ₖ) ≤ F(x̂ₖ₋₁) + mₖ` (see `AllOKPg`), for all stop schedules, budgets, Lipschitz modes. -/
+    `F(x̂ₖ) ≤ F(x̂ₖ₋₁) + mₖ` (see `AllOKPg`), for all stop schedules (flag never lowered), budgets,
+    Lipschitz modes — for all callbacks but the final one, and for the final one too if no stop
+    request was visible at the final loop-head check (see `fista_rate_model`). -/
 theorem pg_rate_model (S : Spec n P ψ grad h dom) (hp : ParamOK pr) (hQ : QubMax n ψ grad pr.Lmax)
     (T : Target n ψ h dom xs Fs) (hacc : pr.disableAcceleration = true)
-    (stop : ℕ → Bool) (oot : Bool) (x0 y Sig errz0 gV : List α) (nan inf : α) (hx0 : x0.length = n)
+    (stop : ℕ → Bool) (hm : StopMono stop) (oot : Bool) (x0 y Sig errz0 gV : List α) (nan inf : α)
+    (hx0 : x0.length = n)
     (hfuel : (run P pr stop oot x0 y Sig errz0 gV nan inf).fuelOut = false) :
     AllOKPg pr ψ h Fs (ipN n (toFn x0 - toFn xs) (toFn x0 - toFn xs))
-      (run P pr stop oot x0 y Sig errz0 gV nan inf).callbacks.reverse := by
+      (run P pr stop oot x0 y Sig errz0 gV nan inf).callbacks.reverse.tail ∧
+    (stop (finalPoll pr (run P pr stop oot x0 y Sig errz0 gV nan inf)) = false →
+      AllOKPg pr ψ h Fs (ipN n (toFn x0 - toFn xs) (toFn x0 - toFn xs))
+        (run P pr stop oot x0 y Sig errz0 gV nan inf).callbacks.reverse) := by
   unfold run at hfuel ⊢
   cases hi : initState P pr x0 gV nan with
   | inl tk => simp [AllOKPg]
   | inr s =>
     simp only [hi] at hfuel ⊢
     obtain ⟨hinv, hk, hcbs, _, hx⟩ := initState_top (xs := xs) (Fs := Fs) S hp x0 gV nan hx0 s hi
-    apply mainLoop_allOKPg S hp hQ T hacc stop oot x0 y Sig errz0 _ _ s (by omega) (by omega)
+    apply mainLoop_allOKPg S hp hQ T hacc stop hm oot x0 y Sig errz0 _ _ s (by omega) (by omega)
     · exact { cons := hinv.cons, hprev := fun hc => absurd hk hc,
               hhead := fun cb' hc => (by rw [hcbs] at hc; cases hc),
               hv := (by rw [hk]; simp),
@@ -355,14 +379,21 @@ theorem pg_rate_model (S : Spec n P ψ grad h dom) (hp : ParamOK pr) (hQ : QubMa
 theorem pg_model_exact (S : Spec n P ψ grad h dom) (hp : ParamOK pr)
     (hQ : QubMax n ψ grad pr.Lmax) (T : Target n ψ h dom xs Fs)
     (hacc : pr.disableAcceleration = true) (hzero : fixedLip pr = true ∨ pr.qubTol = 0)
-    (stop : ℕ → Bool) (oot : Bool) (x0 y Sig errz0 gV : List α) (nan inf : α) (hx0 : x0.length = n)
+    (stop : ℕ → Bool) (hm : StopMono stop) (oot : Bool) (x0 y Sig errz0 gV : List α) (nan inf : α)
+    (hx0 : x0.length = n)
     (hfuel : (run P pr stop oot x0 y Sig errz0 gV nan inf).fuelOut = false) :
-    (∀ cb ∈ (run P pr stop oot x0 y Sig errz0 gV nan inf).callbacks,
+    ((∀ cb ∈ (run P pr stop oot x0 y Sig errz0 gV nan inf).callbacks.reverse.tail,
       ψ cb.it.xhat + h cb.it.xhat - Fs
         ≤ ipN n (toFn x0 - toFn xs) (toFn x0 - toFn xs) / (2 * cb.it.gamma * ((cb.k : α) + 1))) ∧
-    List.IsChain (fun a b : Callback α => ψ b.it.xhat + h b.it.xhat ≤ ψ a.it.xhat + h a.it.xhat)
-      (run P pr stop oot x0 y Sig errz0 gV nan inf).callbacks := by
-  have hall := pg_rate_model S hp hQ T hacc stop oot x0 y Sig errz0 gV nan inf hx0 hfuel
+     List.IsChain (fun a b : Callback α => ψ a.it.xhat + h a.it.xhat ≤ ψ b.it.xhat + h b.it.xhat)
+      (run P pr stop oot x0 y Sig errz0 gV nan inf).callbacks.reverse.tail) ∧
+    (stop (finalPoll pr (run P pr stop oot x0 y Sig errz0 gV nan inf)) = false →
+      (∀ cb ∈ (run P pr stop oot x0 y Sig errz0 gV nan inf).callbacks,
+        ψ cb.it.xhat + h cb.it.xhat - Fs
+          ≤ ipN n (toFn x0 - toFn xs) (toFn x0 - toFn xs) / (2 * cb.it.gamma * ((cb.k : α) + 1))) ∧
+      List.IsChain (fun a b : Callback α => ψ b.it.xhat + h b.it.xhat ≤ ψ a.it.xhat + h a.it.xhat)
+        (run P pr stop oot x0 y Sig errz0 gV nan inf).callbacks) := by
+  have hall := pg_rate_model S hp hQ T hacc stop hm oot x0 y Sig errz0 gV nan inf hx0 hfuel
   have hcb0 : ∀ c : Callback α, cbM pr c = 0 := by
     intro c; unfold cbM; rcases hzero with hz | hz <;> simp [hz]
   have hm0 : ∀ l : List (Callback α), marginSumPg pr l = 0 := by
@@ -395,14 +426,20 @@ theorem pg_model_exact (S : Spec n P ψ grad h dom) (hp : ParamOK pr)
           have := h2 c' rfl
           rw [hcb0, add_zero] at this
           exact this
-  obtain ⟨g1, g2⟩ := hgen _ hall
-  refine ⟨?_, ?_⟩
-  · intro cb hcb
-    have := g1 cb (List.mem_reverse.mpr hcb)
+  refine ⟨?_, fun hns => ?_⟩
+  · obtain ⟨g1, g2⟩ := hgen _ hall.1
+    refine ⟨fun cb hcb => ?_, g2⟩
+    have := g1 cb hcb
     unfold RatePg at this
     simpa using this
-  · have := List.isChain_reverse.mpr g2
-    simpa [flip] using this
+  · obtain ⟨g1, g2⟩ := hgen _ (hall.2 hns)
+    refine ⟨?_, ?_⟩
+    · intro cb hcb
+      have := g1 cb (List.mem_reverse.mpr hcb)
+      unfold RatePg at this
+      simpa using this
+    · have := List.isChain_reverse.mpr g2
+      simpa [flip] using this
 
 /-- `ProxContract`: `x̂` minimises `u ↦ h(u) + ‖u − (x − γ∇ψ)‖²/(2γ)` over `dom h` (the form
     proved componentwise for box / box+ℓ1 steps in `Props/C15`: `projGradStepBox_is_prox`,
@@ -550,15 +587,29 @@ theorem exTarget (n : ℕ) : Target n (fun x : List ℝ => ipN n (toFn x) (toFn 
     linarith
 
 /-- All hypotheses of `fista_rate_model_exact` hold for this instance: FISTA with `L = 1` on
-    `½‖x‖²` satisfies `F(x̂ₖ) ≤ 2‖x₀‖²/(γₖ(k+2)²)` at every reported iterate. -/
-example (n : ℕ) (x0 : List ℝ) (hx0 : x0.length = n) (stop : ℕ → Bool) (oot : Bool)
-    (hfuel : (run (exP n) exPr stop oot x0 [] [] [] [] 0 0).fuelOut = false) :
-    ∀ cb ∈ (run (exP n) exPr stop oot x0 [] [] [] [] 0 0).callbacks,
+    `½‖x‖²` satisfies `F(x̂ₖ) ≤ 2‖x₀‖²/(γₖ(k+2)²)` at every reported iterate (for a stop flag that is
+    never requested: `StopMono` holds trivially and no request is visible at the final check). -/
+example (n : ℕ) (x0 : List ℝ) (hx0 : x0.length = n) (oot : Bool)
+    (hfuel : (run (exP n) exPr (fun _ => false) oot x0 [] [] [] [] 0 0).fuelOut = false) :
+    ∀ cb ∈ (run (exP n) exPr (fun _ => false) oot x0 [] [] [] [] 0 0).callbacks,
       ipN n (toFn cb.it.xhat) (toFn cb.it.xhat) / 2 + 0 - 0
         ≤ 2 * ipN n (toFn x0 - toFn (List.replicate n (0:ℝ))) (toFn x0 - toFn (List.replicate n (0:ℝ)))
             / (cb.it.gamma * ((cb.k : ℝ) + 2) ^ 2) :=
-  fista_rate_model_exact (exSpec n) exParamOK (exQub n) (exTarget n) lawfulSqrt_real rfl
-    (Or.inr rfl) stop oot x0 [] [] [] [] 0 0 hx0 hfuel
+  (fista_rate_model_exact (exSpec n) exParamOK (exQub n) (exTarget n) lawfulSqrt_real rfl
+    (Or.inr rfl) (fun _ => false) (fun _ _ _ h => h) oot x0 [] [] [] [] 0 0 hx0 hfuel).2 rfl
+
+/-- … and for any stop schedule that never lowers the flag (here: visible from tick `k` on) every
+    reported iterate but possibly the final one satisfies the bound. -/
+example (n : ℕ) (x0 : List ℝ) (hx0 : x0.length = n) (k : ℕ) (oot : Bool)
+    (hfuel : (run (exP n) exPr (fun t => decide (k ≤ t)) oot x0 [] [] [] [] 0 0).fuelOut = false) :
+    ∀ cb ∈ (run (exP n) exPr (fun t => decide (k ≤ t)) oot x0 [] [] [] [] 0 0).callbacks.reverse.tail,
+      ipN n (toFn cb.it.xhat) (toFn cb.it.xhat) / 2 + 0 - 0
+        ≤ 2 * ipN n (toFn x0 - toFn (List.replicate n (0:ℝ))) (toFn x0 - toFn (List.replicate n (0:ℝ)))
+            / (cb.it.gamma * ((cb.k : ℝ) + 2) ^ 2) :=
+  (fista_rate_model_exact (exSpec n) exParamOK (exQub n) (exTarget n) lawfulSqrt_real rfl
+    (Or.inr rfl) (fun t => decide (k ≤ t))
+    (fun a b hab h => by simp only [decide_eq_true_eq] at h ⊢; omega)
+    oot x0 [] [] [] [] 0 0 hx0 hfuel).1
 
 end example_real
 
